@@ -1,3 +1,4 @@
 pub mod forget;
 pub mod probe;
 pub mod repo;
+pub mod index;
